@@ -93,6 +93,9 @@ func imageOf(v reflect.Value, hint string, sortKeys bool) (*model.Value, bool) {
 		return model.NullV(model.Null), true
 	}
 	t := v.Type()
+	if img, ok := marshalerImage(v); ok {
+		return img, true
+	}
 	switch t.Kind() {
 	case reflect.Bool:
 		return model.BoolV(v.Bool()), true
